@@ -60,7 +60,15 @@ pub fn build_schema(sort_ty: SortTy) -> (Schema, Fields) {
         ),
         SortTy::Bytes => sb.add_bytes_field("sortv", BytesOptions::default().set_fast()),
     };
-    let js = sb.add_json_field("js", JsonObjectOptions::default().set_stored());
+    // stored and indexed (raw tokenizer): numeric and string JSON terms have their own postings path
+    let js = sb.add_json_field(
+        "js",
+        JsonObjectOptions::default().set_stored().set_indexing_options(
+            TextFieldIndexing::default()
+                .set_tokenizer("raw")
+                .set_index_option(tantivy::schema::IndexRecordOption::Basic),
+        ),
+    );
     let schema = sb.build();
     (schema, Fields { uid, key, body, tag, sortv, js, sort_ty })
 }
@@ -217,6 +225,16 @@ pub fn expected_record(d: &DocSpec, f: &Fields) -> Record {
     }
     for (w, p) in pos {
         terms.insert(format!("body/{}", hex(w.as_bytes())), format!("tf{}@{:?}", p.len(), p));
+    }
+    if d.js > 0 {
+        let mut t = Term::from_field_json_path(f.js, "n", false);
+        t.append_type_and_fast_value::<i64>(d.js as i64);
+        terms.insert(format!("js/{}", hex(t.serialized_value_bytes())), "tf1".into());
+        if d.js > 1 {
+            let mut t = Term::from_field_json_path(f.js, "o.s", false);
+            t.append_type_and_str(&format!("v{}", d.js));
+            terms.insert(format!("js/{}", hex(t.serialized_value_bytes())), "tf1".into());
+        }
     }
     if f.sort_ty == SortTy::Str {
         if let Some(i) = d.sortv {
